@@ -1,7 +1,7 @@
 (* Wf.v -- the definitions C04's totality theorem speaks about: subcommands, adjacent or not; adjacent
    GROUPS whose members keep their scope (flags, arguments, positionals under any of optional / many / some /
    collect / count / last / fallback / guard / parse / map / hide / usage / group_help / boxed, pure, fail,
-   combined by construct! and alternatives: everything but `any`, subcommands and nested groups) and which start with an item (Meta::first_item: without one the
+   combined by construct! and alternatives: everything but subcommands and nested groups) and which start with an item (Meta::first_item: without one the
    group panics -- known finding C04-adjacent-without-first-item);
    every named item has a short name, a long name or a variable (the builder API cannot produce one
    without), every option level passes the positional invariant check (check_invariants). *)
@@ -14,14 +14,14 @@ Definition keyedb (n : named) : bool :=
 (* members of an adjacent group the totality theorem covers *)
 Fixpoint memb (p : parser) {struct p} : bool :=
   match p with
-  | PFlag _ _ _ | PArg _ _ _ _ | PPos _ _ _ _ => true
+  | PFlag _ _ _ | PArg _ _ _ _ | PPos _ _ _ _ | PAny _ _ _ _ => true
   | POptional q _ | PGuard q _ _ | PParse q _ | PMap q _ => memb q
   | PMany q _ | PCollect q _ | PSome q _ _ | PCount q | PLast q => memb q
   | PFallback q _ _ | PFallbackWith q _ _ | PHide q | PUsage q _ | PGroupHelp q _ | PBoxed q => memb q
   | PCon fs => membl fs
   | PPure _ | PPureWith _ | PFail _ => true
   | POr a b => memb a && memb b
-  | PAny _ _ _ _ | PCmd _ _ _ _ _ _ | PAdj _ => false
+  | PCmd _ _ _ _ _ _ | PAdj _ => false
   end
 with membl (ps : plist) {struct ps} : bool :=
   match ps with PNil => true | PCons q t => memb q && membl t end.
